@@ -781,3 +781,118 @@ func (r *R) guardedOnPaths(rule string, fn *ssa.Function, paths []*core.Path, ca
 		r.c.Check(x.detail == "", rule, k, r.p.InstrPos(x.site), fmt.Sprintf("guarded on all %d paths reaching it", x.n), x.detail)
 	}
 }
+
+// effectTable decides which of the listed effects (calls) a function performs,
+// as a function of the listed conditions: the function may branch on nothing
+// else (except the outcome of an effect listed in abortOn, after which the
+// remaining effects may be skipped), and for every assignment of the conditions
+// consistent with a path, the effects on that path are exactly want(assignment).
+func (r *R) effectTable(rule string, fn *ssa.Function, atoms []string, effects map[string]string, abortOn []string, want func(a map[string]bool) []string) {
+	if fn == nil {
+		return
+	}
+	paths := r.pathsOf(rule, fn)
+	if paths == nil {
+		return
+	}
+	fname := core.ShortFn(fn)
+	known := map[string]bool{}
+	for _, a := range atoms {
+		known[a] = true
+	}
+	type verdict struct {
+		ok     bool
+		detail string
+		n      int
+	}
+	byCase := map[string]*verdict{}
+	var caseKeys []string
+	for i, pt := range paths {
+		if pt.End != "return" {
+			continue
+		}
+		aborted := false
+		for _, a := range pt.Atoms {
+			if known[a.S] {
+				continue
+			}
+			isAbort := false
+			for _, pre := range abortOn {
+				if strings.HasPrefix(a.S, pre) && strings.HasSuffix(a.S, "==nil") {
+					isAbort = true
+					if !a.Pol {
+						aborted = true
+					}
+				}
+			}
+			if !isAbort {
+				r.c.Bad(rule, fmt.Sprintf("%s/unexpected-condition#%d", fname, i+1), r.p.Pos(fn.Pos()),
+					fmt.Sprintf("%s decides what to do on %q, which is not one of the conditions the property lets it depend on {%s}", fname, a.S, strings.Join(atoms, ", ")))
+				return
+			}
+		}
+		var got []string
+		for _, ev := range pt.Evs {
+			if lbl, ok := effects[r.p.CalleeName(ev.C)]; ok {
+				got = append(got, lbl)
+			}
+		}
+		sort.Strings(got)
+		n := 1 << len(atoms)
+		for bits := 0; bits < n; bits++ {
+			asg := map[string]bool{}
+			var label []string
+			cons := true
+			for j, a := range atoms {
+				asg[a] = bits&(1<<j) != 0
+				if asg[a] {
+					label = append(label, "+"+a)
+				} else {
+					label = append(label, "-"+a)
+				}
+			}
+			for _, a := range pt.Atoms {
+				if v, ok := asg[a.S]; ok && v != a.Pol {
+					cons = false
+				}
+			}
+			if !cons {
+				continue
+			}
+			exp := append([]string{}, want(asg)...)
+			sort.Strings(exp)
+			k := strings.Join(label, " ")
+			v := byCase[k]
+			if v == nil {
+				v = &verdict{ok: true}
+				byCase[k] = v
+				caseKeys = append(caseKeys, k)
+			}
+			v.n++
+			okc := strings.Join(got, ",") == strings.Join(exp, ",")
+			if aborted {
+				// an effect failed: what came before it must still be expected
+				okc = true
+				es := map[string]bool{}
+				for _, e := range exp {
+					es[e] = true
+				}
+				for _, g := range got {
+					if !es[g] {
+						okc = false
+					}
+				}
+			}
+			if !okc && v.ok {
+				v.ok = false
+				v.detail = fmt.Sprintf("under {%s} %s does [%s], the property requires [%s]", k, fname, strings.Join(got, ","), strings.Join(exp, ","))
+			}
+		}
+	}
+	sort.Strings(caseKeys)
+	for _, k := range caseKeys {
+		v := byCase[k]
+		r.c.Check(v.ok, rule, fname+"/effects/"+k, r.p.Pos(fn.Pos()), fmt.Sprintf("effects as required on %d path(s)", v.n), v.detail)
+	}
+	r.c.Floor(rule, len(caseKeys), 1<<len(atoms)/2, "decided cases of "+fname)
+}
